@@ -84,15 +84,16 @@ type Succ struct {
 
 // Msg is a line from worker to coordinator.
 type Msg struct {
-	ID       int         `json:"id"`
-	Type     string      `json:"t"` // "begin" (about to run successor Idx) | "succ" | "done" | "error" | "pathres"
-	Idx      int         `json:"i,omitempty"`
-	Succ     *Succ       `json:"succ,omitempty"`
-	NEnabled int         `json:"n,omitempty"`
-	Err      string      `json:"err,omitempty"`
-	RootHash string      `json:"rh,omitempty"`
-	Viol     []Violation `json:"v,omitempty"`
-	Canon    string      `json:"c,omitempty"`
+	ID       int             `json:"id"`
+	Type     string          `json:"t"` // "begin" (about to run successor Idx) | "succ" | "done" | "error" | "pathres"
+	Idx      int             `json:"i,omitempty"`
+	Succ     *Succ           `json:"succ,omitempty"`
+	NEnabled int             `json:"n,omitempty"`
+	Err      string          `json:"err,omitempty"`
+	RootHash string          `json:"rh,omitempty"`
+	Viol     []Violation     `json:"v,omitempty"`
+	Canon    string          `json:"c,omitempty"`
+	Result   json.RawMessage `json:"res,omitempty"`
 }
 
 // NewRun instantiates a registered scenario in-process.
@@ -103,3 +104,10 @@ func NewRun(name string, params json.RawMessage) (Run, error) {
 	}
 	return sc(params)
 }
+
+// CallFn is a registered batch function executed inside a worker process.
+type CallFn func(params json.RawMessage) (any, error)
+
+var calls = map[string]CallFn{}
+
+func RegisterCall(name string, fn CallFn) { calls[name] = fn }
